@@ -8,6 +8,7 @@ import (
 	"crypto/sha256"
 	"encoding/hex"
 	"fmt"
+	"github.com/zenon-network/go-zenon/vm/vm_context"
 	"math/big"
 	"os"
 	"path/filepath"
@@ -677,6 +678,53 @@ func (n *Node) ProduceMomentumOnly(skip int) error { return n.produceMomentumOnl
 // the blocks pooled here (they have not reached it yet): an empty momentum. This node handles it like any momentum
 // received from a peer and keeps (re-derives) its pool.
 func (n *Node) ProduceForeignEmptyMomentum(skip int) error { return n.produceMomentumOnly(skip, true) }
+
+// ForgeMomentum builds the momentum a misbehaving elected pillar could seal for the next slot (after `skip` skipped slots)
+// with exactly `blocks` - pooled on this node - as content: changes hash over the pool's patches of those blocks, hash,
+// signature of the pillar elected for the slot. The node's verifier and supervisor are not asked; nothing is inserted.
+// The clock is moved to the slot (a receiver must not see the momentum as coming from the future).
+func (n *Node) ForgeMomentum(skip int, blocks []*nom.AccountBlock) (*nom.DetailedMomentum, error) {
+	t := n.NextSlot(skip)
+	expected, err := n.Cons.GetMomentumProducer(t)
+	if err != nil {
+		return nil, err
+	}
+	var key *wallet.KeyPair
+	for _, k := range n.Opts.PillarKeys {
+		if k.Address == *expected {
+			key = k
+		}
+	}
+	if key == nil {
+		return nil, fmt.Errorf("no key for elected producer %v", expected)
+	}
+	Clock.Set(t)
+	prev := n.Frontier()
+	m := &nom.Momentum{ChainIdentifier: n.Chain.ChainIdentifier(), PreviousHash: prev.Hash, Height: prev.Height + 1,
+		TimestampUnix: uint64(t.Unix()), Content: nom.NewMomentumContent(blocks), Version: 1}
+	ctx := vm_context.NewMomentumVMContext(n.Chain.GetMomentumStore(prev.Identifier()))
+	for _, header := range m.Content {
+		patch := n.Chain.GetPatch(header.Address, header.Identifier())
+		if patch == nil {
+			return nil, fmt.Errorf("block %v is not pooled", header)
+		}
+		if err := ctx.AddAccountBlockTransaction(*header, patch); err != nil {
+			return nil, err
+		}
+	}
+	changes, err := ctx.Changes()
+	if err != nil {
+		return nil, err
+	}
+	m.ChangesHash = db.PatchHash(changes)
+	m.Hash = m.ComputeHash()
+	m.Signature, _, m.PublicKey, _ = key.Signer(m.Hash.Bytes())
+	d := &nom.DetailedMomentum{Momentum: m}
+	for _, b := range blocks {
+		d.AccountBlocks = append(d.AccountBlocks, CloneBlock(b))
+	}
+	return CloneBatch([]*nom.DetailedMomentum{d})[0], nil
+}
 
 func (n *Node) produceMomentumOnly(skip int, empty bool) error {
 	t := n.NextSlot(skip)
